@@ -54,4 +54,12 @@ var specs = map[string]*propSpec{
 		Real: []string{"pkg/blobserver/files", "pkg/blobserver/diskpacked (incl. Reindex, StreamBlobs, delete)"},
 		Stub: []string{"SimVFS (files.VFS)", "os/syscall shim + simdisk crash materialisation", "SimKV index (assumed crash-atomic and durable per call)"},
 	},
+	"C11": {
+		ID: "C11", Engine: "storesim", Level: "exploration",
+		QuickRuns: 1500, ThoroughRuns: 60000, Chunk: 25, WatchdogS: 400,
+		Rule:      "one evaluation = one history on encrypt(blobs, meta, metaIndex) over simulated stores: receives (in a fifth of the runs more than SmallMetaCountLimit, so the background meta compaction runs under the seeded scheduler), reads, restarts with the meta index wiped (graceful, or a kill right after an operation returned with compaction in flight), process death inside a receive, and tamper operations on stored ciphertext/meta blobs (single-byte flips — every position for blobs up to 1 KiB —, truncations, extension, blob-for-blob swap, removal), each followed by a sweep (every fetch returns the original plaintext or fails), optionally a restart with wiped index, and restoration; a leak scan searches every byte and blob name of the wrapped stores for plaintext refs, digests and 16-byte plaintext windows; sub-runs = tamper variants; distinct = distinct (blob count, op-kind sequence)",
+		Real:      []string{"pkg/blobserver/encrypt (encrypt.go, meta.go)", "filippo.io/age"},
+		Stub:      []string{"SimStore blobs/meta", "SimKV metaIndex", "crypto/rand replaced by a seeded DRBG"},
+		MustReach: []string{"restart-index-wiped", "meta-compaction-removed-small-metas", "tamper-flipall"},
+	},
 }
